@@ -10,6 +10,8 @@ import (
 
 	"google.golang.org/protobuf/proto"
 
+	"github.com/smart-core-os/sc-api/go/traits"
+
 	"github.com/smart-core-os/sc-golang/pkg/resource"
 	"github.com/smart-core-os/sc-golang/verifharness/lib"
 )
@@ -30,6 +32,47 @@ type session struct {
 	NBefore int      `json:"n_before"`
 	Ops     []string `json:"ops"`    // `add:i:v` `upd:i:v` `ups:i:v` `del:i`, fences not included
 	Bursts  []int    `json:"bursts"` // sizes; sum = len(Ops)-NBefore; first burst may be 0 (seed only)
+	// Mask: "" | "keep1" | "keep2" — a read mask on two-field messages (values are two-character tokens)
+	// keeping only the first resp. second field; the predicate still ranges over the full stored values
+	Mask string `json:"mask,omitempty"`
+}
+
+func (s session) fenceAdd() string {
+	if s.Mask != "" {
+		return "add:" + fenceID + ":ff"
+	}
+	return "add:" + fenceID + ":f"
+}
+
+// projTok is what the read mask leaves of a value token.
+func projTok(mask, tok string) string {
+	if tok == "-" || len(tok) != 2 {
+		return tok
+	}
+	switch mask {
+	case "keep1":
+		return tok[:1] + "_"
+	case "keep2":
+		return "_" + tok[1:]
+	}
+	return tok
+}
+
+func (s session) opSuffix() string {
+	if s.Mask == "" {
+		return ""
+	}
+	return ":" + s.Mask
+}
+
+func (s session) maskOpts() []resource.ReadOption {
+	switch s.Mask {
+	case "keep1":
+		return []resource.ReadOption{resource.WithReadPaths(&traits.Booking{}, "title")}
+	case "keep2":
+		return []resource.ReadOption{resource.WithReadPaths(&traits.Booking{}, "owner_name")}
+	}
+	return nil
 }
 
 type burstObs struct {
@@ -64,9 +107,9 @@ func applyOp(c *resource.Collection, op string) error {
 
 // listWithInclude calls the real List(WithInclude p) and re-attaches ids through a recording wrapper
 // of the predicate (List returns bare messages).
-func listWithInclude(c *resource.Collection, p pred) string {
+func listWithInclude(c *resource.Collection, p pred, extra ...resource.ReadOption) string {
 	var ids []string
-	var opts []resource.ReadOption
+	opts := append([]resource.ReadOption{}, extra...)
 	if !p.Nil {
 		ff := p.filterFunc()
 		opts = append(opts, resource.WithInclude(func(id string, m proto.Message) bool {
@@ -113,6 +156,7 @@ func (s session) run() (obs []burstObs) {
 		opts = append(opts, resource.WithInclude(ff))
 	}
 	opts = append(opts, resource.WithBackpressure(s.BP))
+	opts = append(opts, s.maskOpts()...)
 	ch := c.Pull(ctx, opts...)
 
 	// gated consumer: reads only while a drain is requested, up to the fence event
@@ -154,7 +198,7 @@ func (s session) run() (obs []burstObs) {
 		if fenceOn {
 			burst = append(burst, "del:"+fenceID)
 		} else {
-			burst = append(burst, "add:"+fenceID+":f")
+			burst = append(burst, s.fenceAdd())
 		}
 		fenceOn = !fenceOn
 		b.Ops = burst
@@ -204,7 +248,7 @@ func (s session) run() (obs []burstObs) {
 		}
 		b.Events = <-drained
 		b.FenceOK = len(b.Events) > 0 && strings.HasPrefix(b.Events[len(b.Events)-1], fenceID+",")
-		b.List = listWithInclude(c, s.Pred)
+		b.List = listWithInclude(c, s.Pred, s.maskOpts()...)
 		obs = append(obs, b)
 		if !b.FenceOK || panicked {
 			break
@@ -248,7 +292,7 @@ func (sh shadow) apply(op string) (ok bool, id, kind, old, new string) {
 	panic("bad op " + op)
 }
 
-func (sh shadow) filtered(p pred) string {
+func (sh shadow) filtered(p pred, mask string) string {
 	var ids []string
 	for id, v := range sh {
 		if p.in(id, v) {
@@ -261,7 +305,7 @@ func (sh shadow) filtered(p pred) string {
 	}
 	parts := make([]string, len(ids))
 	for i, id := range ids {
-		parts[i] = id + "=" + sh[id]
+		parts[i] = id + "=" + projTok(mask, sh[id])
 	}
 	return strings.Join(parts, ",")
 }
@@ -363,6 +407,12 @@ func (s session) monitor(m *lib.Monitor, obs []burstObs) {
 				continue
 			}
 			exp, oin, nin := expectedEvent(s.Pred, id, kind, "0", old, new, "0", "0")
+			if exp != "drop" && s.Mask != "" {
+				// include judges the stored values; the mask then projects what is delivered
+				ef := splitComma(exp)
+				ef[3], ef[4] = projTok(s.Mask, ef[3]), projTok(s.Mask, ef[4])
+				exp = strings.Join(ef, ",")
+			}
 			cell := fmt.Sprintf("%s/%s-%s/pAbsent=%s", kind, inout(oin), inout(nin), tf(!s.Pred.Nil && s.Pred.eval(id, "-")))
 			if id != fenceID {
 				m.Count("cell " + kind + "/" + inout(oin) + "-" + inout(nin))
@@ -396,7 +446,7 @@ func (s session) monitor(m *lib.Monitor, obs []burstObs) {
 			for _, op := range s.Ops[:s.NBefore] {
 				sh0.apply(op)
 			}
-			if want := sh0.filtered(s.Pred); sv != want {
+			if want := sh0.filtered(s.Pred, s.Mask); sv != want {
 				m.Violate("C08/Pull/seed/not-filtered-list", "the seed is not the filtered list", s, want, sv)
 			}
 		}
@@ -436,7 +486,7 @@ func (s session) monitor(m *lib.Monitor, obs []burstObs) {
 			m.Violate(pre+"event-not-well-formed", "a delivered event does not fit the subscriber's view (ADD of a present id / UPDATE or REMOVE of an absent id / wrong old value / missing value)", s, "well-formed edit", vf.notWF)
 			vf.notWF = ""
 		}
-		want := sh.filtered(s.Pred)
+		want := sh.filtered(s.Pred, s.Mask)
 		if got := vf.String(); got != want {
 			m.Violate(pre+"fold-differs-from-filtered-collection", "folding the delivered stream does not give the filtered collection", s, want, got)
 		}
@@ -467,7 +517,9 @@ var ids2 = []string{"a", "b"}
 var ids3 = []string{"a", "b", "c"}
 var vals2 = []string{"x", "y"}
 
-func genOps(r *rand.Rand, ids []string, n int) []string {
+var valsWide = []string{"xp", "xq", "yp", "yq"}
+
+func genOps(r *rand.Rand, ids []string, vals2 []string, n int) []string {
 	sh := shadow{}
 	ops := make([]string, 0, n)
 	for len(ops) < n {
@@ -513,13 +565,19 @@ func genSession(r *rand.Rand, bp bool, small bool) session {
 	if small {
 		nb, na = r.Intn(3), 1+r.Intn(3)
 	}
-	p := pred{Ids: ids, Vals: vals2}
-	bits := uint(len(ids) * 3)
+	vals, mask := vals2, ""
+	if r.Intn(3) == 0 {
+		// two-field messages under a read mask that strips one field; the predicate (a truth table over
+		// the full values) may depend on the stripped field, the kept field, or both
+		vals, mask = valsWide, []string{"keep1", "keep2"}[r.Intn(2)]
+	}
+	p := pred{Ids: ids, Vals: vals}
+	bits := uint(len(ids) * (len(vals) + 1))
 	p.Mask = uint64(r.Int63()) & (1<<bits - 1)
 	if r.Intn(40) == 0 {
 		p = pred{Nil: true}
 	}
-	s := session{Kind: "pull", Pred: p, BP: bp, NBefore: nb, Ops: genOps(r, ids, nb+na)}
+	s := session{Kind: "pull", Pred: p, BP: bp, NBefore: nb, Ops: genOps(r, ids, vals, nb+na), Mask: mask}
 	if bp {
 		s.Bursts = append(s.Bursts, 0)
 		for i := 0; i < na; i++ {
@@ -557,14 +615,14 @@ func (s session) driverLines() []string {
 			if fenceOn {
 				ops = append(ops, "del:"+fenceID)
 			} else {
-				ops = append(ops, "add:"+fenceID+":f")
+				ops = append(ops, s.fenceAdd())
 			}
 			fenceOn = !fenceOn
 		}
-		return []string{fmt.Sprintf("pull %s %d %s", s.Pred.token(), s.NBefore, strings.Join(ops, " "))}
+		return []string{fmt.Sprintf("pull"+s.opSuffix()+" %s %d %s", s.Pred.token(), s.NBefore, strings.Join(ops, " "))}
 	}
 	// lossy: the seed through `pull`, then one `burst` line per burst
-	lines := []string{strings.TrimSpace(fmt.Sprintf("pull %s %d %s", s.Pred.token(), s.NBefore, strings.Join(s.Ops[:s.NBefore], " ")))}
+	lines := []string{strings.TrimSpace(fmt.Sprintf("pull"+s.opSuffix()+" %s %d %s", s.Pred.token(), s.NBefore, strings.Join(s.Ops[:s.NBefore], " ")))}
 	hist := append([]string{}, s.Ops[:s.NBefore]...)
 	fenceOn := false
 	rest := s.Ops[s.NBefore:]
@@ -574,10 +632,10 @@ func (s session) driverLines() []string {
 		if fenceOn {
 			burst = append(burst, "del:"+fenceID)
 		} else {
-			burst = append(burst, "add:"+fenceID+":f")
+			burst = append(burst, s.fenceAdd())
 		}
 		fenceOn = !fenceOn
-		lines = append(lines, fmt.Sprintf("burst %s %d %s", s.Pred.token(), len(hist), strings.Join(append(append([]string{}, hist...), burst...), " ")))
+		lines = append(lines, fmt.Sprintf("burst"+s.opSuffix()+" %s %d %s", s.Pred.token(), len(hist), strings.Join(append(append([]string{}, hist...), burst...), " ")))
 		hist = append(hist, burst...)
 	}
 	return lines
@@ -653,7 +711,7 @@ func modelAnswerBP(ans string, obs []burstObs) string {
 
 func runPull(f lib.Flags, res *lib.Result, drv *lib.Driver) {
 	tieBP := res.Tie("pull-backpressure", "K1",
-		"random write histories (Add/Update/Update+CreateIfAbsent/Delete incl. failing writes) over 2-3 ids x 2 values on a real Collection, subscription after a random prefix, Pull(WithInclude p, WithBackpressure(true)) with p a random truth table over (id, {absent,x,y}); after each write a fence write, then the delivered events and List(WithInclude p) are compared with the model's `pull` answer; non-trivial = predicate not nil; distinct = (predicate, history)")
+		"random write histories (Add/Update/Update+CreateIfAbsent/Delete incl. failing writes) over 2-3 ids x 2 values on a real Collection, subscription after a random prefix, Pull(WithInclude p, WithBackpressure(true)) with p a random truth table over (id, {absent} + values); a third of the sessions use two-field messages (4 values) under a read mask that strips one of the fields, the truth table ranging over the full stored values (so it may depend on the stripped field, the kept one, or both) — model: include on the unmasked values, then the mask's projection on seeds, events and List; after each write a fence write, then the delivered events and List(WithInclude p) are compared with the model's `pull` answer; non-trivial = predicate not nil; distinct = (predicate, history)")
 	tieLossy := res.Tie("pull-lossy", "K1",
 		"same histories with WithBackpressure(false): writes in bursts of 1-4 with nothing read meanwhile (the real mergeCollectionExcess merges), then drained to a fence; the delivered stream of each burst must be one of the streams the model produces over all recv/emit patterns (acceptor); model side = the delivered stream if accepted, else the model's set")
 	mon := res.Monitor("pull-fold", "on the same sessions, independent of the model: seed = filtered list; with backpressure the delivered stream is exactly the filtered edit script per write (in-in delivered as is, out-in ADD, in-out REMOVE, out-out nothing); every delivered event is well formed at the subscriber's view; after every burst fold(delivered) = filtered shadow map = List(WithInclude p); distinct = (predicate, burst)")
